@@ -23,17 +23,51 @@ import (
 	"sort"
 	"strings"
 
+	"os"
+
+	redigo "github.com/gomodule/redigo/redis"
+
 	"verifharness/internal/drv"
+	"verifharness/internal/respfake"
+
+	subredis "github.com/DrmagicE/gmqtt/persistence/subscription/redis"
 
 	"github.com/DrmagicE/gmqtt"
 	"github.com/DrmagicE/gmqtt/persistence/subscription"
 	"github.com/DrmagicE/gmqtt/persistence/subscription/mem"
 )
 
-func main() { drv.Main(&subDrv{st: mem.NewStore()}) }
+// `drive_substore redis`: the same ops through persistence/subscription/redis (the wrapper that writes redis first and
+// the in-memory index second) over an in-process respfake; `fault` makes the next redis command fail: the op that hits
+// it must report an error and leave every lookup and counter as it was (`err`), and `reload` compares a store
+// re-initialised from redis with the live one.
+func main() {
+	if len(os.Args) > 1 && os.Args[1] == "redis" {
+		fake, err := respfake.Start()
+		if err != nil {
+			fmt.Println("CRASH respfake")
+			return
+		}
+		addr := fake.Addr()
+		pool := &redigo.Pool{MaxIdle: 4, Dial: func() (redigo.Conn, error) { return redigo.Dial("tcp", addr) }}
+		drv.Main(&subDrv{st: subredis.New(pool), fake: fake, pool: pool})
+		return
+	}
+	drv.Main(&subDrv{st: mem.NewStore()})
+}
 
 type subDrv struct {
-	st subscription.Store
+	st   subscription.Store
+	fake *respfake.Server
+	pool *redigo.Pool
+	cids map[string]bool
+}
+
+// disarm: an armed fault concerns the redis commands of ONE mutating operation (which may also issue none)
+func (d *subDrv) disarm() {
+	if d.fake != nil {
+		d.fake.FailNext(0)
+	}
 }
 
 func b2i(b bool) int {
@@ -78,12 +112,48 @@ func (d *subDrv) Step(line string) string {
 	f := strings.Split(line, " ")
 	switch {
 	case f[0] == "new" && len(f) == 1:
+		d.cids = map[string]bool{}
+		if d.fake != nil {
+			d.fake.FailNext(0)
+			d.fake.Exec(0, [][]byte{[]byte("FLUSHALL")})
+			d.st = subredis.New(d.pool)
+			return "ok"
+		}
 		d.st = mem.NewStore()
 		return "ok"
+	case f[0] == "fault" && len(f) == 1:
+		if d.fake != nil {
+			d.fake.FailNext(1)
+		}
+		return "ok"
+	case f[0] == "reload" && len(f) == 1:
+		if d.fake == nil {
+			return "same"
+		}
+		d.fake.FailNext(0)
+		fresh := subredis.New(d.pool)
+		var ids []string
+		for c := range d.cids {
+			ids = append(ids, c)
+		}
+		sort.Strings(ids)
+		if err := fresh.Init(ids); err != nil {
+			return "reload-err"
+		}
+		live := d.iterate(subscription.IterationOptions{Type: subscription.TypeAll})
+		d2 := &subDrv{st: fresh}
+		re := d2.iterate(subscription.IterationOptions{Type: subscription.TypeAll})
+		if live == re {
+			return "same"
+		}
+		return "differ live=[" + live + "] reloaded=[" + re + "]"
 	case f[0] == "sub" && len(f) == 9:
 		s := &gmqtt.Subscription{
 			ShareName: undash(f[2]), TopicFilter: f[3], QoS: byte(drv.Atoi(f[4])), NoLocal: f[5] == "1",
 			RetainAsPublished: f[6] == "1", RetainHandling: byte(drv.Atoi(f[7])), ID: uint32(drv.Atoi(f[8])),
+		}
+		if d.cids != nil {
+			d.cids[f[1]] = true
 		}
 		rs, err := d.st.Subscribe(f[1], s)
 		if err != nil || len(rs) != 1 {
@@ -94,12 +164,16 @@ func (d *subDrv) Step(line string) string {
 		}
 		return "ok new"
 	case f[0] == "unsub" && len(f) == 3:
-		if d.st.Unsubscribe(f[1], f[2]) != nil {
+		err := d.st.Unsubscribe(f[1], f[2])
+		d.disarm()
+		if err != nil {
 			return "err"
 		}
 		return "ok"
 	case f[0] == "unsuball" && len(f) == 2:
-		if d.st.UnsubscribeAll(f[1]) != nil {
+		err := d.st.UnsubscribeAll(f[1])
+		d.disarm()
+		if err != nil {
 			return "err"
 		}
 		return "ok"
